@@ -10,7 +10,7 @@ from . import C01, C02, C03, C05, C06
 PROPERTY = "C10"
 LEVEL = "exploration"
 TIMEOUT = 300
-BUDGET = {"quick": 200, "thorough": 1800}
+BUDGET = {"quick": 600, "thorough": 3600}
 RULE = ("[strata added in the build: commuted operand pairs for all 11 operators, bundle CSE-key variants, gated cells "
         "sharing one enable expression; names observable in only one of the two builds are differences] "
         "Differential: the same generated source is compiled by the real compiler with optimisation (constant "
